@@ -1,8 +1,13 @@
 from props import _io
 
-META = {"level": "bounded",
+META = {"level": "proof+bounded",
         "trusted_base": ['google.protobuf runtime (message classes generated from /repo/proto by protoc)', 'oracles/io_oracles.py reference codec / parser (independent of /repo)'],
         "assumptions": [],
-        "explanation": ''}
+        "explanation": 'Proved for all inputs: header layout; DataBlock/CodeBlock/ProxyBlock/Symbol/SymAddrConst/SymAddrAddr/AuxData writers and readers, the Block and SymbolicExpression one-ofs, the CFG edge reader, and the enum tables against /repo/proto. Container messages (IR, Module, Section, ByteInterval bodies, CFG writer) under both protobuf back ends: bounded stand-in.'}
 
 bounded, replay_obligation = _io.make('C02', 'writer: saved bytes parsed with the generated classes and compared field by field with the in-memory IR; reader: messages built directly from the descriptors (every enum constant) loaded and compared field by field; enum tables compared with /repo/proto', 400, 6000, env_variants=(None, {'PROTOCOL_BUFFERS_PYTHON_IMPLEMENTATION': 'python'}))
+
+
+def extra_obligations(prog, schema, reg, eng):
+    from props import _tables
+    return _tables.enum_tables(prog, schema)
